@@ -258,6 +258,15 @@ pub fn run_history(ctx: &Ctx, sz: &Sizes, hist: u64) {
         let kind = if is_os() && r.chance(200) { 2 } else if is_os() && r.chance(120) { 3 } else if r.chance(300) { 1 } else { 0 };
         plans.push(SenderPlan { idx: i as u32, lens: gen_lens(&mut r, sz, per, multi_pm), kind, baton: use_baton && kind < 2 });
     }
+    // in one history out of five, one sender's plan contains one message of several MiB (a size
+    // class of its own on every transport), in flight while the other senders keep sending
+    if r.chance(200) && !small_buf {
+        let k = r.below(plans.len() as u64) as usize;
+        if !plans[k].lens.is_empty() {
+            let at = r.below(plans[k].lens.len() as u64) as usize;
+            plans[k].lens[at] = (4 << 20) + r.range(1, 6 << 20) as usize;
+        }
+    }
     // baton slots: a global chain over some (sender, seq) pairs of the baton-enabled thread senders, consistent with per-sender order
     let mut slots: Vec<(u32, u32)> = Vec::new();
     if use_baton {
